@@ -268,6 +268,10 @@ def impl(line: str) -> str:
         return _impl_pedersen(t)
     if t[0].startswith("psbt."):
         return _impl_psbt(t)
+    if t[0].startswith("ecies."):
+        return _impl_ecies(t)
+    if t[0].startswith("ell."):
+        return _impl_ell(t)
     return "bad-op"
 
 
@@ -3007,6 +3011,113 @@ def run_pedersen(ctx):
     _stream_both(ctx, "pedersen", lines)
 
 
+
+# ========================================================================================================
+# ---- ecies: impl / generators/run (correspondence with Model/C16/Ecies.lean) ----------------------------
+# ecies.encrypt <msg> <Px> <Py> <q> <magic> -> ok <envelope octets hex>   (encrypt(..., eph_prv_key=q) un-base64'd)
+# ecies.decrypt <envelope hex> <d> <magic>  -> ok <msg hex> | err value (structure, key) | err runtime (MAC)
+# The cipher is the caller's in btclib: both sides use the same toy one (PKCS#7 to 16, XOR with key‖iv repeated).
+# ========================================================================================================
+import base64 as _b64  # noqa: E402
+
+from btclib.ecc import ecies as _ecies  # noqa: E402
+
+
+def _toy_xor(key, iv, m):
+    ks = key + iv
+    return bytes(b ^ ks[i % len(ks)] for i, b in enumerate(m)) if ks else m
+
+
+def _toy_enc(key, iv, m):
+    k = 16 - len(m) % 16
+    return _toy_xor(key, iv, m + bytes([k]) * k)
+
+
+def _toy_dec(key, iv, c):
+    p = _toy_xor(key, iv, c)
+    if not p or not 0 < p[-1] <= 16 or p[-1] > len(p) or p[-p[-1]:] != bytes([p[-1]]) * p[-1]:
+        raise BTClibValueError("bad padding")
+    return p[:-p[-1]]
+
+
+def _impl_ecies(t) -> str:
+    try:
+        if t[0] == "ecies.encrypt" and len(t) == 6:
+            msg, pt, q, magic = unhx(t[1]), (int(t[2]), int(t[3])), int(t[4]), unhx(t[5])
+            return _call(lambda: hx(_b64.b64decode(_ecies.encrypt(msg, pt, _toy_enc, eph_prv_key=q, magic=magic))))
+        if t[0] == "ecies.decrypt" and len(t) == 4:
+            env, d, magic = unhx(t[1]), int(t[2]), unhx(t[3])
+            return _call(lambda: hx(_ecies.decrypt(_b64.b64encode(env).decode(), d, _toy_dec, magic=magic)))
+    except ValueError:
+        return "bad-op"
+    return "bad-op"
+
+
+def run_ecies(ctx):
+    rng = ctx.rng
+    enc, dec = [], []
+    for i in range(ctx.n(40, 600)):
+        d, q = g_prv(rng), g_prv(rng)
+        pt = mult(d)
+        msg = common.rand_bytes(rng, rng.choice([0, 1, 15, 16, 17, 31, 32, 33, 64, 100]))
+        magic = rng.choice([b"BIE1"] * 8 + [b"BIE2", b"\x00\xff\x80\x7f", b"", b"BIE", b"BIE1x"])
+        q_ = rng.choice([q] * 9 + [0, N, N + 1])
+        line = f"ecies.encrypt {hx(msg)} {pt[0]} {pt[1]} {q_} {hx(magic)}"
+        enc.append(line)
+        out = impl(line)
+        if not out.startswith("ok "):
+            continue
+        env = unhx(out[3:])
+        dec.append(f"ecies.decrypt {hx(env)} {d} {hx(magic)}")                      # the recipient
+        dec.append(f"ecies.decrypt {hx(env)} {rng.choice([g_prv(rng), N - d, d + 1, 0, N])} {hx(magic)}")  # another key
+        j = rng.randrange(len(env))
+        bad = env[:j] + bytes([env[j] ^ (1 << rng.randrange(8))]) + env[j + 1:]
+        dec.append(f"ecies.decrypt {hx(bad)} {d} {hx(magic)}")                      # one bit flipped anywhere
+        dec.append(f"ecies.decrypt {hx(env[:rng.randrange(len(env))])} {d} {hx(magic)}")          # truncated
+        dec.append(f"ecies.decrypt {hx(env + bytes(rng.choice([1, 16])))} {d} {hx(magic)}")        # extended
+        dec.append(f"ecies.decrypt {hx(env)} {d} {hx(rng.choice([b'BIE2', b'', magic + b'x']))}")  # another magic
+    off = mult(g_prv(rng))
+    enc.append(f"ecies.encrypt 00 {off[0]} {(off[1] + 1) % P} 5 {hx(b'BIE1')}")  # not on the curve
+    _stream_both(ctx, "ecies.encrypt", enc)
+    _stream_both(ctx, "ecies.decrypt", dec)
+
+
+# ---- ellswift: impl / generators/run (correspondence with Model/C16/EllSwift.lean) ----------------------
+# ell.xswiftec <curve> <u> <t> -> ok <x> ; ell.xswiftec_inv <curve> <x> <u> <case 0..7> -> ok <t> | ok None
+def _impl_ell(t) -> str:
+    try:
+        ec = CURVES[t[1]]
+        if t[0] == "ell.xswiftec" and len(t) == 4:
+            u, tt = int(t[2]), int(t[3])
+            return _call(lambda: str(ellswift._xswiftec_var(u, tt, ec)))
+        if t[0] == "ell.xswiftec_inv" and len(t) == 5:
+            x, u, c = int(t[2]), int(t[3]), int(t[4])
+            return _call(lambda: str(ellswift._xswiftec_inv_var(x, u, c, ec)))
+    except (ValueError, KeyError):
+        return "bad-op"
+    return "bad-op"
+
+
+def run_ell(ctx):
+    rng = ctx.rng
+    fw, inv = [], []
+    edge = [0, 1, 2, P - 1, P, P + 1, 2**256 - 1]
+    for i in range(ctx.n(60, 1500)):
+        u = rng.choice(edge) if rng.random() < 0.15 else rng.getrandbits(256)
+        t = rng.choice(edge) if rng.random() < 0.15 else rng.getrandbits(256)
+        fw.append(f"ell.xswiftec secp256k1 {u} {t}")
+        x = mult(g_prv(rng))[0] if rng.random() < 0.7 else rng.getrandbits(256)
+        if rng.random() < 0.1:
+            x = (-x - u) % P  # the other branch's guard
+        for c in range(8):
+            line = f"ell.xswiftec_inv secp256k1 {x} {u} {c}"
+            inv.append(line)
+            out = impl(line)
+            if out.startswith("ok ") and out != "ok None":  # the forward map on what the inverse answered
+                fw.append(f"ell.xswiftec secp256k1 {u} {out[3:]}")
+    _stream_both(ctx, "ell.xswiftec", fw)
+    _stream_both(ctx, "ell.xswiftec_inv", inv, )
+
 def run(ctx):
     shared.validate_hashes(ctx, EXE)
     run_musig(ctx)
@@ -3015,3 +3126,5 @@ def run(ctx):
     run_sp(ctx)
     run_psbt(ctx)
     run_pedersen(ctx)
+    run_ecies(ctx)
+    run_ell(ctx)
